@@ -12,6 +12,7 @@ import (
 	"github.com/verily-src/fhirpath-go/fhirpath/verifharness/core"
 	"github.com/verily-src/fhirpath-go/fhirpath/verifharness/fx"
 	"github.com/verily-src/fhirpath-go/fhirpath/verifharness/gen"
+	"github.com/verily-src/fhirpath-go/fhirpath/verifharness/model"
 	"github.com/verily-src/fhirpath-go/internal/fhir"
 )
 
@@ -21,14 +22,14 @@ func init() {
 	core.Register(&core.Property{
 		ID:         "C06",
 		Exhaustive: true,
-		Rule:       "exhaustive: {and, or, xor, implies} x every ordered pair of operand forms, a form being value in {true,false,empty,non-Boolean singleton,multi-item} x source in {literal, FHIR boolean element path, computed, %env (System and FHIR element), function result}; not() x forms; the singleton rule through iif/where/exists/all criteria and EvaluateAsBool; De Morgan and implies laws as paired programs. Expected values from the N1 truth tables. distinct_nontrivial = distinct (operator, left form, right form) programs whose expected value is not determined by a literal-only pair",
+		Rule:       "exhaustive: {and, or, xor, implies} x every ordered pair of operand forms, a form being value in {true,false,empty,non-Boolean singleton,multi-item} x source in {literal, FHIR boolean element path, computed, %env (System and FHIR element), function result}; not() x forms; the singleton rule through iif/where/exists/all criteria and EvaluateAsBool; De Morgan and implies laws as paired programs; plus operand forms taken from generated resources of all 146 R4 types (boolean elements at any depth incl. choices and extension values, non-Boolean singletons, multi-item paths, absent elements) pairwise under every operator, not() and iif. Expected values from the N1 truth tables. distinct_nontrivial = distinct (operator, left form, right form) programs whose expected value is not determined by a literal-only pair",
 		Assumptions: []string{"multi-item literal operands do not exist in the supported grammar (`|` unsupported): supplied through %env, element paths and functions",
 			"resource-rooted operand forms are not used inside where/exists/all criteria (the input there is the item, not the resource)"},
 		Run:    runC06,
-		Checks: map[string]func(*core.Env, []json.RawMessage){"prog": replayC06},
+		Checks: map[string]func(*core.Env, []json.RawMessage){"prog": replayC06, "gen": replayC06Gen},
 		Threshold: func(m *core.Merged) []string {
 			var r []string
-			for _, k := range []string{"binop", "not", "iif", "where", "exists", "all", "asbool", "demorgan", "implies-law", "both-rooted"} {
+			for _, k := range []string{"binop", "not", "iif", "where", "exists", "all", "asbool", "demorgan", "implies-law", "both-rooted", "generated-resource", "gen-form:T", "gen-form:F", "gen-form:N", "gen-form:M", "gen-form:E"} {
 				if m.Cover[k] == 0 {
 					r = append(r, "never observed: "+k)
 				}
@@ -231,6 +232,16 @@ func runC06(env *core.Env) {
 		c06Prog(env, "all", "(7).all("+a.Src+")", whereTab[a.Val])
 		env.Cover("all")
 	}
+	// operand forms from generated resources of every type
+	per := env.Size(1, 10)
+	for k := 0; k < per; k++ {
+		for _, md := range gen.ResourceTypes() {
+			n++
+			if env.Mine(n) {
+				c06Resource(env, string(md.Name()), env.Seed*1000+uint64(k), k%2 == 1)
+			}
+		}
+	}
 	// member-based criteria on the resource (FHIR element operands inside criteria)
 	for _, c := range []struct{ src, want string }{
 		{"Patient.where(active).exists()", "T"}, {"Patient.communication.where(preferred).count() = 1", "T"}, {"Patient.communication.all(preferred)", "F"},
@@ -243,6 +254,107 @@ func runC06(env *core.Env) {
 			c06Prog(env, "criteria-member", c.src, c.want)
 		}
 	}
+}
+
+// c06Resource: operand forms taken from a generated resource of any type — FHIR boolean elements (also
+// behind choices and extensions), non-Boolean singletons, multi-item paths, absent elements — combined
+// pairwise under every operator, not(), iif and EvaluateAsBool.
+func c06Resource(env *core.Env, tn string, seed uint64, rich bool) {
+	defer env.In("gen", tn, seed, rich)()
+	res, _ := genResource(tn, seed, rich)
+	tree, err := model.BuildTree(res)
+	if err != nil {
+		env.Skip("resource-not-marshallable")
+		return
+	}
+	var forms []form
+	count := map[string]int{}
+	add := func(src, val string) {
+		if count[val] >= 3 {
+			return
+		}
+		count[val]++
+		forms = append(forms, form{src, val, "generated", true})
+	}
+	for _, nd := range tree.All() {
+		if nd.Parent == nil || nd.Msg == nil || nd.Synth != nil || nd.UnderFresh() || len(nd.PathTo()) > 6 {
+			continue
+		}
+		odd := false
+		for _, nm := range nd.PathTo() {
+			if lexicallyOdd(nm) {
+				odd = true
+			}
+		}
+		if odd {
+			continue
+		}
+		path, ok := buildPath(tree, nd, "indexed")
+		if !ok {
+			continue
+		}
+		if nd.IsPrim && nd.MD != nil && nd.MD.Name() == "Boolean" {
+			if b, isB := nd.JSON.(bool); isB {
+				if b {
+					add(path, "T")
+				} else {
+					add(path, "F")
+				}
+			}
+			continue
+		}
+		if nd.IsPrim && nd.JSON == nil {
+			continue // value-less primitive: what it counts as is outside the statement
+		}
+		add(path, "N")
+		if sibs := nd.Parent.KidsNamed(nd.Name); len(sibs) >= 2 && sibs[0] == nd {
+			if pp, ok2 := buildPath(tree, nd.Parent, "indexed"); ok2 || nd.Parent.Parent == nil {
+				if nd.Parent.Parent == nil {
+					pp = tree.Name
+				}
+				add(pp+"."+model.IdentSrc(nd.Name), "M")
+			}
+		}
+	}
+	add(tree.Name+".id.where(false)", "E")
+	add("{}", "E")
+	in := []fhir.Resource{res}
+	run := func(kind, src, want string) {
+		r := fx.Eval(env, src, in, nil, nil)
+		env.Case()
+		got := obs3(r)
+		if got != want {
+			if r.IsPanic() {
+				env.Violatef(fx.PanicSig("C06", r), "`%s` on %s(seed %d) => %s", src, tn, seed, r.Short())
+			} else {
+				env.Violatef("C06/"+kind+"/want-"+want+"-got-"+got, "`%s` on %s(seed %d): expected %s, observed %s (%s)", src, tn, seed, want, got, trunc(r.Short(), 200))
+			}
+		}
+	}
+	notTab := map[string]string{"T": "F", "F": "T", "E": "E", "N": "F", "M": "ERR"}
+	iifTab := map[string]string{"T": "T", "F": "F", "E": "F", "N": "T", "M": "ERR"}
+	for _, a := range forms {
+		env.Cover("gen-form:" + a.Val)
+		run("not", "("+a.Src+").not()", notTab[a.Val])
+		run("iif", "iif("+a.Src+", true, false)", iifTab[a.Val])
+		for _, b := range forms {
+			for _, op := range []string{"and", "or", "xor", "implies"} {
+				run("binop-"+op, a.Src+" "+op+" "+b.Src, logic3(op, a.Val, b.Val))
+				env.Distinct(op + "|" + tn + "|" + a.Val + b.Val + "|" + progShape(a.Src) + "|" + progShape(b.Src))
+			}
+		}
+	}
+	env.Cover("generated-resource")
+}
+
+func replayC06Gen(env *core.Env, a []json.RawMessage) {
+	var tn string
+	var seed uint64
+	var rich bool
+	json.Unmarshal(a[0], &tn)
+	json.Unmarshal(a[1], &seed)
+	json.Unmarshal(a[2], &rich)
+	c06Resource(env, tn, seed, rich)
 }
 
 func c06Law(env *core.Env, law, lhs, rhs string) {
